@@ -249,6 +249,19 @@ namespace logmessage {
             [[nodiscard]] std::string formatMessage() const override;
         };
 
+        class RecursiveMacro : public PreprocBase
+        {
+            static const loglevel level = loglevel::error;
+            static const size_t errorCode = 10014;
+            std::string macro;
+        public:
+            RecursiveMacro(LogLocationInfo loc, std::string macro) :
+                PreprocBase(level, errorCode, std::move(loc)), macro(macro)
+            {
+            }
+            [[nodiscard]] std::string formatMessage() const override;
+        };
+
     }
     namespace assembly
     {
